@@ -115,7 +115,7 @@ OnlyCompleteOutput ==
     [][\A n \in Plain : (fs'[n] # fs[n] /\ hist' = hist /\ fs'[n].own # "script")
             => \/ fs'[n].ex /\ fs'[n].own = "redo"
                    /\ \E p \in DOMAIN procs : \E j \in procs[p].jobs :
-                         j.t = n /\ j.st = "exited" /\ j.rv = 0 /\ fs'[n].val = j.val
+                         j.t = n /\ j.st \in {"exited", "copied"} /\ j.rv = 0 /\ fs'[n].val = j.val
                          /\ (j.std \/ j.file) /\ ~(j.std /\ j.file)
                \/ ~fs'[n].ex
                    /\ \E p \in DOMAIN procs : \E j \in procs[p].jobs :
@@ -140,6 +140,10 @@ NoCleanOverFailed ==
 (***************************************************************************)
 (* C12 / C09 (at this level): termination and defined exit status          *)
 (***************************************************************************)
+\* C10: after a kill, on a program whose rules all succeed, every build command exits 0
+\* (Fresh then says its targets are right, also after later edits)
+RecoversOk == (AfterCmd /\ gh.crashes > 0 /\ ~gh.crashNow) => LastH.rc = 0
+
 ProcOrEnd == ProcStep \/ EndBuild
 \* some process can always move while a command is in flight (F_SETLKW on a lock that is
 \* never released, or a wait for a token that never comes, shows up here)
